@@ -96,7 +96,7 @@ theorem sim_litBase {K : SCtx} {G : St → Prop} (hn : K.n = probsSize K.lc K.lp
     (hP : PosInv K.dp) (hF : K.dp.full ≤ K.hsize) :
     Sim (fun s => Stat K s ∧ G s)
       (fun s : St => EStateM.Result.ok (P_LITERAL + literalSubcoder s.lc s.lp s.dp.pos s.dictGet0.toNat) s) litBaseC
-      (fun base s' => (Stat K s' ∧ G s') ∧ base + LITERAL_CODER_SIZE ≤ K.n) := by
+      (fun base s' => (Stat K s' ∧ G s') ∧ base + LITERAL_CODER_SIZE ≤ K.n ∧ P_LITERAL ≤ base) := by
   intro s hp
   obtain ⟨⟨h1, h2, h3, h4, h5⟩, hg⟩ := hp
   refine ⟨?_, ?_⟩
@@ -112,6 +112,15 @@ theorem sim_litBase {K : SCtx} {G : St → Prop} (hn : K.n = probsSize K.lc K.lp
       (by decide)).1
     simp only [LITERAL_CODER_SIZE] at *
     omega
+
+/-- the part of the `literal` member the model array holds is inside the member -/
+theorem probsSize_le_member (lc lp : Nat) (h : lc + lp ≤ 4) :
+    probsSize lc lp ≤ P_LITERAL + LITERAL_CODER_SIZE <<< LZMA_LCLP_MAX := by
+  unfold probsSize
+  have : LITERAL_CODER_SIZE <<< (lc + lp) ≤ LITERAL_CODER_SIZE <<< LZMA_LCLP_MAX := by
+    rw [Nat.shiftLeft_eq, Nat.shiftLeft_eq]
+    exact Nat.mul_le_mul_left _ (Nat.pow_le_pow_right (by decide) h)
+  omega
 
 /-- the matched-literal read `dict_get(&dict, rep0)` with `rep0 < dict.full` -/
 theorem sim_matchByte {K : SCtx} {G : St → Prop} (r0 : Nat) (hP : PosInv K.dp) (hF : K.dp.full ≤ K.hsize)
@@ -175,18 +184,23 @@ theorem sim_decodeSymbol (ev : Bool) (K : SCtx) (st r0 pb : Nat)
   refine Sim.weaken (P := fun s => Stat K s ∧ (s.rep0 = r0 ∧ s.state = state ∧ s.pb = pb)) ?_ (fun s h => h.1) (fun _ _ h => h)
   simp only []
   have hst' : state < STATES := hst
-  refine Sim.bind (sim_rcBit hG0 _ (by have := (isMatch_idx state posState hst' hc2).1; simp only [P_IS_REP, P_LITERAL] at *; omega))
+  refine Sim.bind (sim_rcBit hG0 M_IS_MATCH _ (by have := (isMatch_idx state posState hst' hc2).1; simp only [P_IS_REP, P_LITERAL] at *; omega)
+    (by have := (isMatch_idx state posState hst' hc2).1; simp only [P_IS_REP, P_IS_MATCH, STATES, POS_STATES_MAX] at *; omega))
     (fun isMatch => ?_)
   refine Sim.weaken (P := fun s => Stat K s ∧ (s.rep0 = r0 ∧ s.state = state ∧ s.pb = pb)) ?_ (fun s h => h.1) (fun _ _ h => h)
   refine Sim.ite (fun _ => ?_) (fun _ => ?_)
   · -- literal
     refine Sim.bind (sim_litBase hn hlc hP hF) (fun base => ?_)
-    refine Sim.of_pre (C := base + LITERAL_CODER_SIZE ≤ K.n) (fun s h => h.2) (fun hbase => ?_)
+    refine Sim.of_pre (C := base + LITERAL_CODER_SIZE ≤ K.n ∧ P_LITERAL ≤ base) (fun s h => h.2) (fun hbase2 => ?_)
+    have hbase := hbase2.1
+    have hmemL : P_LITERAL ≤ base ∧ base + LITERAL_CODER_SIZE ≤ P_LITERAL + LITERAL_CODER_SIZE <<< LZMA_LCLP_MAX :=
+      ⟨hbase2.2, by have := probsSize_le_member K.lc K.lp hlc; rw [← hn] at this; omega⟩
     refine Sim.weaken (P := fun s => Stat K s ∧ (s.rep0 = r0 ∧ s.state = state ∧ s.pb = pb)) ?_ (fun s h => h.1) (fun _ _ h => h)
     refine Sim.ite (fun hlit => ?_) (fun hlit => ?_)
     · refine Sim.bind (R := fun _ s => Stat K s ∧ s.state = updateLiteralNormal state) (Sim.modify _ ?_) (fun _ => ?_)
       · intro s h; exact ⟨h.1, rfl⟩
-      · refine Sim.bind (sim_bittree (stable_state _) base 0x100 (by simp only [LITERAL_CODER_SIZE] at hbase; omega) 8 1 (by decide))
+      · refine Sim.bind (sim_bittree (stable_state _) M_LITERAL base 0x100 (by simp only [LITERAL_CODER_SIZE] at hbase; omega)
+            (by have h1 := hmemL.1; have h2 := hmemL.2; simp only [LITERAL_CODER_SIZE] at h2 ⊢; exact ⟨h1, by omega⟩) 8 1 (by decide))
           (fun sym => Sim.weaken (fin _ hup.1 _ trivial) (fun s h => h.1) (fun _ _ h => h))
     · have h7 : 7 ≤ state := by
         have : ¬ state < 7 := by simpa [isLiteralState, LIT_STATES] using hlit
@@ -194,11 +208,12 @@ theorem sim_decodeSymbol (ev : Bool) (K : SCtx) (st r0 pb : Nat)
       refine Sim.bind (R := fun _ s => (Stat K s ∧ s.state = updateLiteralMatched state) ∧ s.rep0 = r0) (Sim.modify _ ?_) (fun _ => ?_)
       · intro s h; exact ⟨⟨h.1, rfl⟩, h.2.1⟩
       · refine Sim.bind (sim_matchByte r0 hP hF (hr h7)) (fun mb => ?_)
-        exact Sim.bind (sim_litMatched (stable_state _) base hbase 8 1 0x100 (mb * 2) (by decide) (Or.inr rfl))
+        exact Sim.bind (sim_litMatched (stable_state _) base hbase hmemL 8 1 0x100 (mb * 2) (by decide) (Or.inr rfl))
           (fun sym => fin _ hup.2.1 _ trivial)
   · -- match or rep
     have hir := isRep_idx state hst'
-    refine Sim.bind (sim_rcBit hG0 _ (by have := hir.1; simp only [P_IS_REP0, P_LITERAL] at *; omega)) (fun isRep => ?_)
+    refine Sim.bind (sim_rcBit hG0 M_IS_REP _ (by have := hir.1; simp only [P_IS_REP0, P_LITERAL] at *; omega)
+      (by have := hir.1; simp only [P_IS_REP0, P_IS_REP, STATES] at *; omega)) (fun isRep => ?_)
     refine Sim.weaken (P := fun s => Stat K s ∧ (s.rep0 = r0 ∧ s.state = state ∧ s.pb = pb)) ?_ (fun s h => h.1) (fun _ _ h => h)
     refine Sim.ite (fun _ => ?_) (fun _ => ?_)
     · -- simple match
@@ -231,15 +246,19 @@ theorem sim_decodeSymbol (ev : Bool) (K : SCtx) (st r0 pb : Nat)
           · refine Sim.ite (fun _ => Sim.throw _) (fun _ => fin _ hup.2.2.1 _ hlen)
     · -- repeated match
       refine Sim.ite (fun _ => Sim.throw _) (fun _ => ?_)
-      refine Sim.bind (sim_rcBit hG0 _ (by have := hir.2.1; simp only [P_IS_REP1, P_LITERAL] at *; omega)) (fun isRep0 => ?_)
+      refine Sim.bind (sim_rcBit hG0 M_IS_REP0 _ (by have := hir.2.1; simp only [P_IS_REP1, P_LITERAL] at *; omega)
+        (by have := hir.2.1; simp only [P_IS_REP1, P_IS_REP0, STATES] at *; omega)) (fun isRep0 => ?_)
       refine Sim.weaken (P := fun s => Stat K s ∧ s.state = state) ?_ (fun s h => ⟨h.1.1, h.1.2.2.1⟩) (fun _ _ h => h)
       have hGs := stable_state state
       refine Sim.bind (R := fun _ s => Stat K s ∧ s.state = state) ?_ (fun isShort => ?_)
       · refine Sim.ite (fun _ => ?_) (fun _ => ?_)
-        · refine Sim.bind (sim_rcBit hGs _ ?_) (fun isLong => Sim.pure _ (fun _ h => h.1))
-          have := (isMatch_idx state posState hst' hc2).2.2
-          simp only [P_DIST_SLOT, P_LITERAL] at *; omega
-        · refine Sim.bind (sim_rcBit hGs _ (by have := hir.2.2.1; simp only [P_IS_REP2, P_LITERAL] at *; omega)) (fun isRep1 => ?_)
+        · refine Sim.bind (sim_rcBit hGs M_IS_REP0_LONG _ ?_ ?_) (fun isLong => Sim.pure _ (fun _ h => h.1))
+          · have := (isMatch_idx state posState hst' hc2).2.2
+            simp only [P_DIST_SLOT, P_LITERAL] at *; omega
+          · have := (isMatch_idx state posState hst' hc2).2.2
+            simp only [P_DIST_SLOT, P_IS_REP0_LONG, STATES, POS_STATES_MAX] at *; omega
+        · refine Sim.bind (sim_rcBit hGs M_IS_REP1 _ (by have := hir.2.2.1; simp only [P_IS_REP2, P_LITERAL] at *; omega)
+            (by have := hir.2.2.1; simp only [P_IS_REP2, P_IS_REP1, STATES] at *; omega)) (fun isRep1 => ?_)
           refine Sim.weaken (P := fun s => Stat K s ∧ s.state = state) ?_ (fun s h => h.1) (fun _ _ h => h)
           have hm : ∀ f : St → St, (∀ s, Stat K s ∧ s.state = state → Stat K (f s) ∧ (f s).state = state) →
               Sim (fun s => Stat K s ∧ s.state = state) (do modify f; pure false : M Bool) (do modify f; pure false : MC Bool)
@@ -247,7 +266,8 @@ theorem sim_decodeSymbol (ev : Bool) (K : SCtx) (st r0 pb : Nat)
             fun f hf => Sim.bind (R := fun _ s => Stat K s ∧ s.state = state) (Sim.modify f hf) (fun _ => Sim.pure _ (fun _ h => h))
           refine Sim.ite (fun _ => ?_) (fun _ => ?_)
           · exact hm _ (fun s h => ⟨h.1, h.2⟩)
-          · refine Sim.bind (sim_rcBit hGs _ (by have := hir.2.2.2; simp only [P_IS_REP0_LONG, P_LITERAL] at *; omega))
+          · refine Sim.bind (sim_rcBit hGs M_IS_REP2 _ (by have := hir.2.2.2; simp only [P_IS_REP0_LONG, P_LITERAL] at *; omega)
+                (by have := hir.2.2.2; simp only [P_IS_REP0_LONG, P_IS_REP2, STATES] at *; omega))
               (fun isRep2 => ?_)
             refine Sim.weaken (P := fun s => Stat K s ∧ s.state = state) ?_ (fun s h => h.1) (fun _ _ h => h)
             refine Sim.ite (fun _ => ?_) (fun _ => ?_)
